@@ -60,6 +60,8 @@ func runC05(c *Ctx) {
 	ruleNilChannels(c, "R5.6")
 	ruleServeFromHead(c, "R5.7")
 	ruleNoWaitOnCancelledContext(c, "R5.6")
+	ruleSyncTriesAllPeers(c, "R5.9")
+	ruleAppendStorePut(c, "R5.10") // a failed write leaves the head where it was: the round can still be appended later
 	ruleSignedRound(c, "R5.8", sign) // after a halt the partial signed is head+1, the only round that can be appended
 }
 
@@ -611,7 +613,9 @@ func runC10(c *Ctx) {
 	if !c.Anchor("R10.1", "internal/chain/beacon.(*SyncManager).tryNode", tn != nil) {
 		return
 	}
-	ruleVerifyBeforePut(c, "R10.1", func(f *ssa.Function) bool { return f == tn })
+	// the sync path proper, and the start-up bootstrap of an in-memory node (one beacon fetched from the group's peers)
+	boot := c.P.Fn("internal/core.(*BeaconProcess).storeCurrentFromPeerNetwork")
+	ruleVerifyBeforePut(c, "R10.1", func(f *ssa.Function) bool { return f == tn || (boot != nil && f == boot) })
 	c.Floor("R10.1", "store sites in tryNode", c.Counts["R10.1"], 2)
 	ruleKeyProvenanceIn(c, "R10.1", tn)
 	ruleFailedCheckAbandonsPeer(c, "R10.1", tn)
@@ -623,6 +627,8 @@ func runC10(c *Ctx) {
 	ruleCheckAndCorrect(c, "R10.5")
 	ruleCompletionExact(c, "R10.6", tn)
 	ruleNoWaitOnCancelledContext(c, "R10.4")
+	ruleResyncDecidedByRequest(c, "R10.4")
+	rulePeerAttemptStartsAtHead(c, "R10.4", tn)
 	ruleAppendStorePut(c, "R10.7") // a failed write leaves the head where it was, so the next peer can still deliver the round
 }
 
@@ -1416,4 +1422,32 @@ func ruleNoWaitOnCancelledContext(c *Ctx, rule string) {
 		}
 	}
 	_ = n
+}
+
+// rulePeerAttemptStartsAtHead: an ordinary sync asks each peer for the round after the store's head *as it is when that
+// peer is tried*: the head is read inside the per-peer attempt. A start round fixed once for all peers makes the second peer
+// re-send rounds the first one already delivered, which the append layer refuses, and every remaining peer is abandoned.
+func rulePeerAttemptStartsAtHead(c *Ctx, rule string, tn *ssa.Function) {
+	if tn == nil {
+		return
+	}
+	n := 0
+	for _, lit := range literalsOfType(tn, "protobuf/drand.SyncRequest") {
+		fields, ok := literalFields(lit)
+		if !ok || fields["FromRound"] == nil {
+			continue
+		}
+		n++
+		fromHead := false
+		for _, o := range Origins(fields["FromRound"]) {
+			if o.Kind == "field" && strings.HasSuffix(o.Name, "common.Beacon.Round") {
+				if base := baseOfFieldLoad(o.Val); base != nil && derivesFromCall(base, ".Last", 0) {
+					fromHead = true
+				}
+			}
+		}
+		c.Ok(rule, "each peer is asked from the head of the store as read for that attempt", shortPos(c.P, lit), fromHead,
+			"SyncRequest.FromRound origins: "+strings.Join(originStrings(Origins(fields["FromRound"])), ","))
+	}
+	c.Floor(rule, "sync requests built per peer attempt", n, 1)
 }
